@@ -6,6 +6,7 @@ import re
 from analysis.facts import strip_generics
 from analysis import a7
 from rules import a7_common
+from . import C06 as _C06
 
 EXPLANATION = (
     "The schedule quantifier is discharged by type- and lock-structure arguments: (1) trait-solver "
@@ -36,6 +37,12 @@ def check(run):
         run.guard("C19.2.unsafe-impl-vacuous", cfg, lambda: rule_unsafe(run, F, cfg))
         run.guard("C19.3.single-lock", cfg, lambda: rule_lock(run, F, cfg))
         run.guard("C19.4.no-panic-under-lock", cfg, lambda: rule_poison(run, F, cfg))
+        if cfg == "B":
+            b = run.borrow("C06", why="answers are schedule-independent only if the shared regex cache is semantically "
+                                      "transparent and nothing else is mutated by a query")
+            run.guard("C19.via.C06.1.interior-mutability", cfg, lambda: _C06.rule_im(b, F, cfg))
+            run.guard("C19.via.C06.2.pure-cache", cfg, lambda: _C06.rule_pure_cache(b, F, cfg))
+            run.guard("C19.via.C06.3.cache-key-validity", cfg, lambda: _C06.rule_cache_key(b, F, cfg))
     run.guard("C19.3.single-lock", "A", lambda: rule_lock(run, A, "A"))
     run.guard("C19.5.config-diff", "A/B", lambda: rule_diff(run, A, run.facts("B")))
 
